@@ -566,6 +566,23 @@ class PtBuild:
                 if inp["kind"] == "ph"}
 
 
+def integer_zero_divisor(spec: dict[str, Any], vset: int, plain: Any = None) -> bool:
+    """Does some INTEGER floordiv / mod of *spec* divide by zero on input set *vset*?
+    (undefined behaviour in C -- SIGFPE --, a warning and 0 in NumPy: outside the fragment)"""
+    try:
+        plain = plain or Shadow(spec, vset)
+        for nd in spec["nodes"]:
+            if nd["op"] in ("floordiv", "mod") and len(nd["args"]) == 2:
+                dv = np.asarray(plain.arg(nd["args"][1]))
+                if dv.dtype.kind in "biu" and \
+                        np.asarray(plain.arg(nd["args"][0])).dtype.kind in "biu" \
+                        and dv.size and not np.all(dv):
+                    return True
+    except Exception:  # noqa: BLE001
+        return True
+    return False
+
+
 def reference(spec: dict[str, Any], vset: int, n_mca: int = 4, pure_numpy: bool = False
               ) -> tuple[dict[str, np.ndarray], dict[str, np.ndarray], bool, Shadow]:
     """-> (reference outputs, per-output absolute spread, fragile?, plain shadow)."""
